@@ -12,6 +12,8 @@ RULE = ("G-cli: (1) format strings = every name of the usage text and of the dri
         "extensions, directories, dots, backslashes x formats with each extension; (3) command lines of 1..4 output groups "
         "(-f/-o/-p present or not, valid and invalid formats) with the global options (quiet, iters, defines, colour, help, version, "
         "debug switches) in any group and position, every spelling (short/long, attached/detached/=, flag clusters), 0..2 inputs, "
+        "defines (every spelling, before/after the input, in a later group) aimed at constants whose declared default is a literal, a "
+        "forward label, a later constant, an address difference or the current address, the constant being used in the output, "
         "run through driver::drive on the mock file server and through the real binary.  non-trivial = distinct format string with a "
         "parameter or an unknown name; distinct input name; distinct command line with >= 2 groups or a derived name or a global "
         "option outside the first group")
@@ -26,13 +28,20 @@ PROGRAMS = {
     "good": "X = 0\nY = 0\n#d8 1, 2\n",
     "iter": "#ruledef\n{\n    jmp {a} => { assert(a < 4), 0x11 @ a`8 }\n    jmp {a} => 0x22 @ a`16\n}\nX = 0\nY = 0\njmp l1\njmp l2\njmp l1\n#res 1\nl1:\n#res 2\nl2:\n",
     "err": "X = 0\nY = 0\n#d8 undefined_symbol\n",
+    # constants X and Y are USED in the output (bytes 0 and 1) and their declared defaults are not literals: a forward label,
+    # a later constant, a difference of addresses, the current address.  A define must replace them all the same.
+    "dlabel": "#d8 X, Y\nX = lbl\nY = 2\nlbl:\n#d8 0xee\n",
+    "dfwd": "#d8 X, Y\nX = K + 1\nY = l2 - l1\nK = 6\nl1:\n#d8 0xaa, 0xbb\nl2:\n",
+    "dpc": "#d8 X, Y\nX = $ + 0x10\n#d8 0xcc\nY = here * 2\nhere:\n",
 }
+DEFPROGS = ("dlabel", "dfwd", "dpc")
 # which program a given input name holds in the generated file systems
 INPUT_FILES = {"main.asm": "good", "dir/main.asm": "good", "noext": "good", "a.b.asm": "good", "main.bin": "good", "main.txt": "good",
                "iter.asm": "iter", "err.asm": "err", "sub/iter.asm": "iter",
+               "dlabel.asm": "dlabel", "dfwd.asm": "dfwd", "sub/dpc.asm": "dpc",
                "proj.v2/main": "good", "./prog": "good", ".hidden": "good", "a.b/c.d/e": "good", "proj.v2/main.asm": "good"}
 CMD_INPUTS = ["main.asm"] * 6 + ["dir/main.asm", "noext", "a.b.asm", "main.bin", "main.txt", "iter.asm", "iter.asm", "err.asm",
-                                  "missing.asm", "sub/iter.asm", "proj.v2/main", "./prog", ".hidden", "a.b/c.d/e", "proj.v2/main.asm"]
+                                  "missing.asm", "sub/iter.asm", "dlabel.asm", "dlabel.asm", "dfwd.asm", "dfwd.asm", "sub/dpc.asm", "sub/dpc.asm", "proj.v2/main", "./prog", ".hidden", "a.b/c.d/e", "proj.v2/main.asm"]
 # format strings just outside each documented set, run as whole command lines too (rejected before assembling, no crash)
 BOUNDARY_FORMATS = ["annotated,base:0", "annotated,base:1", "annotated,base:3", "annotated,base:129", "annotated,base:256",
                     "annotated,group:0", "annotated,group:65536", "tcgame,base:0", "tcgame,base:1", "tcgame,base:4", "tcgame,base:8",
@@ -324,19 +333,27 @@ def calibrate(c):
     """the assembler is an oracle for C18: which budgets let each fixed program succeed (measured on the implementation)"""
     lines, keys = [], []
     for prog in PROGRAMS:
-        for flags in ("11", "01", "10", "00"):          # optimize_statically_known, optimize_instruction_matching
-            for b in list(range(1, 8)) + [10]:
-                argv = ["customasm", "-q", "-p", "-t%d" % b, "p.asm"]
-                argv += ["--debug-no-optimize-static"] if flags[0] == "0" else []
-                argv += ["--debug-no-optimize-matcher"] if flags[1] == "0" else []
-                lines.append("C\t%s\t%s=%s\t" % (";".join(vlib.hx(a) for a in argv), vlib.hx("p.asm"), vlib.hx(PROGRAMS[prog])))
-                keys.append((prog + "/" + flags, b))
+        for mask in (("00", "10", "01", "11") if prog in DEFPROGS else ("",)):     # is X / Y given by a define
+            for flags in ("11", "01", "10", "00"):          # optimize_statically_known, optimize_instruction_matching
+                for b in list(range(1, 8)) + [10]:
+                    argv = ["customasm", "-q", "-p", "-t%d" % b, "p.asm"]
+                    argv += ["--debug-no-optimize-static"] if flags[0] == "0" else []
+                    argv += ["--debug-no-optimize-matcher"] if flags[1] == "0" else []
+                    argv += ["-dX=0x33"] if mask[:1] == "1" else []
+                    argv += ["-dY=0x44"] if mask[1:] == "1" else []
+                    lines.append("C\t%s\t%s=%s\tBinary" % (";".join(vlib.hx(a) for a in argv), vlib.hx("p.asm"), vlib.hx(PROGRAMS[prog])))
+                    keys.append((prog + "/" + flags + ("/" + mask if mask else ""), b))
     res = vlib.run_lines(capture_cmd(c.bins["debug"] + "/cli"), lines)
-    need = {}
+    need, base = {}, {}
     for (key, b), r in zip(keys, res):
         if r.startswith("OK\t"):
             need.setdefault(key, b)
-    return need   # smallest budget that succeeds per program / switch combination; absent = never
+            kp = key.split("/")
+            if b == 10 and kp[1] == "11" and (len(kp) == 2 or kp[2] == "00"):
+                a = parse_answer(r)
+                base[key.split("/")[0]] = {"X": a.get("X"), "Y": a.get("Y")}     # the declared defaults (nothing defined)
+    need["declared"] = base
+    return need   # smallest budget that succeeds per program / switch combination (/ define mask); absent = never
 
 
 def model_command(line):
@@ -364,6 +381,17 @@ def probe_field(actions):
     return ";".join(":".join([a[2][0]] + ["%x" % x for x in a[2][1]]) for a in actions if a[0] in ("P", "W"))
 
 
+def define_int(v):
+    """'I:<[-]hex>:<size>' -> int, anything else -> None"""
+    if v is None or not v.startswith("I:"):
+        return None
+    return int(v.split(":")[1], 16)
+
+
+def first_define(m, name):
+    return next((v for n, v in m["defines"] if n == name), None)
+
+
 def asm_expectation(m, need):
     """does the assembly succeed (the assembler itself is outside C18: measured budgets, declared constants X and Y)"""
     if not m["inputs"]:
@@ -375,12 +403,20 @@ def asm_expectation(m, need):
         progs.append(INPUT_FILES[i])
     if len(progs) > 1:
         return None           # two files declaring X twice etc.: not predicted, only the invariants are checked
-    p = progs[0] + "/" + m["flags"][:2]
-    if p not in need or m["iters"] < need[p]:
-        return False
     for n, _ in m["defines"]:
         if n not in ("X", "Y"):
             return False
+    p = progs[0] + "/" + m["flags"][:2]
+    if progs[0] in DEFPROGS:
+        mask = ""
+        for nm in ("X", "Y"):
+            dv = first_define(m, nm)
+            if dv is not None and (define_int(dv) is None or not -128 <= define_int(dv) <= 255):
+                return None       # a boolean or an integer that does not fit `#d8`: the assembler's business, not predicted
+            mask += "0" if dv is None else "1"
+        p += "/" + mask
+    if p not in need or m["iters"] < need[p]:
+        return False
     return True
 
 
@@ -444,6 +480,8 @@ def check_command(chk, c, case, a, m, need, rp, dist):
     # one action per group, in order, with the group's own format
     wr_expected = [(x[1], x[2]) for x in acts if x[0] == "W"]
     probes = a["probes"]
+    bits = probes[-1] if probes else "-"       # the extra probe: the output as -f binary, whatever the groups ask for
+    probes = probes[:-1]
     if len(probes) != len(acts) or any(p in ("PANIC", "-") for p in probes):
         report(chk, c, "formatting one of %r failed on %r" % ([x[2] for x in acts], case["argv"][1:]), rp)
         return False
@@ -467,11 +505,27 @@ def check_command(chk, c, case, a, m, need, rp, dist):
         report(chk, c, "%r: %s iterations taken with a budget of %d" % (case["argv"][1:], a["it"], m["iters"]), rp)
         return False
     # defines: the first define of a name is the one the assembler uses
-    for nm in ("X", "Y"):
-        want = next((v for n, v in m["defines"] if n == nm), "I:0:-")
-        if exp is True and a.get(nm) != want:
-            report(chk, c, "%r: constant %s is %s after assembling, the define says %s" % (case["argv"][1:], nm, a.get(nm), want), rp)
+    # and it is the constant's value everywhere: in the symbol table and in the output bits where the constant is used,
+    # whatever the declared default is (literal, label, later constant, address)
+    prog = INPUT_FILES.get(m["inputs"][0]) if len(m["inputs"]) == 1 else None
+    declared = need.get("declared", {}).get(prog, {})
+    for idx, nm in enumerate(("X", "Y")):
+        dv = first_define(m, nm)
+        want = dv if dv is not None else declared.get(nm)
+        if prog is None or want is None or not (exp is True or dv is not None):
+            continue
+        if a.get(nm) != want:
+            report(chk, c, "%r: constant %s is %s after assembling (%s), %s" % (
+                case["argv"][1:], nm, a.get(nm), prog, "the define says %s" % want if dv is not None else "its declared value is %s" % want),
+                rp, cls="define_not_honoured" if dv is not None else None)
             return False
+        if prog in DEFPROGS and define_int(want) is not None and re.fullmatch(r"[0-9a-f]{4,}", bits):
+            byte = "%02x" % (define_int(want) & 0xff)
+            if bits[2 * idx:2 * idx + 2] != byte:
+                report(chk, c, "%r: the output byte that holds %s is 0x%s (%s), %s" % (
+                    case["argv"][1:], nm, bits[2 * idx:2 * idx + 2], prog, "the define says 0x%s" % byte if dv is not None else "its declared value is 0x%s" % byte),
+                    rp, cls="define_not_honoured" if dv is not None else None)
+                return False
     return True
 
 
@@ -505,6 +559,32 @@ def stream_commands(chk, c, need):
                 g["p"] = True
                 argv.append("-p")
             directed.append({"groups": [g], "argv": argv})
+    # defines honoured wherever they appear and whatever the constant's declared default is: every spelling, before / after
+    # the input, in a later group; targets X, Y or both; values in every literal form; plus the no-define controls
+    vals = ["0x33", "51", "%110011", "$33", "0b11_0011", "0o63", "-1", "0", "255", "0x7f", "-128", "1_0"]
+    k = 0
+    for inp in ("dlabel.asm", "dfwd.asm", "sub/dpc.asm", "main.asm"):
+        directed.append({"groups": [{"i": [inp], "q": True}], "argv": ["customasm", inp, "-q"]})
+        directed.append({"groups": [{"i": [inp]}, {"f": "symbols", "p": True, "q": True}], "argv": ["customasm", inp, "--", "-f", "symbols", "-p", "-q"]})
+        for target in (("X",), ("Y",), ("X", "Y"), ("Y", "X")):
+            for sp in ("attached", "detached", "longdetached", "long="):
+                for pos in ("before", "after", "later", "later-print"):
+                    ds, words = [], []
+                    for nm in target:
+                        d = "%s=%s" % (nm, vals[k % len(vals)])
+                        k += 1
+                        ds.append(d)
+                        words += cli_gen.spell_value(chk.rng, "d", d, sp)[0]
+                    if pos == "before":
+                        directed.append({"groups": [{"i": [inp], "q": True, "d": ds}], "argv": ["customasm"] + words + [inp, "-q"]})
+                    elif pos == "after":
+                        directed.append({"groups": [{"i": [inp], "q": True, "d": ds}], "argv": ["customasm", inp, "-q"] + words})
+                    elif pos == "later":
+                        directed.append({"groups": [{"i": [inp], "q": True}, {"d": ds, "f": "hexstr", "o": "x.hex"}],
+                                         "argv": ["customasm", inp, "-q", "--"] + words + ["-f", "hexstr", "-o", "x.hex"]})
+                    else:
+                        directed.append({"groups": [{"i": [inp], "f": "symbols", "p": True}, {"f": "binary"}, {"d": ds, "q": True, "p": True}],
+                                         "argv": ["customasm", inp, "-f", "symbols", "-p", "--", "-f", "binary", "--", "-p", "-q"] + words})
     # just outside each documented set, and the input names of the property's quantifier, as whole command lines
     for f in BOUNDARY_FORMATS:
         for extra, gx in (([], {}), (["-p"], {"p": True}), (["-o", "x.out"], {"o": "x.out"})):
@@ -533,7 +613,7 @@ def stream_commands(chk, c, need):
     impl_lines = []
     for cs, m in zip(cases, ms):
         names = [i for g in cs["groups"] for i in g.get("i", [])]
-        probes = probe_field(m["actions"]) if m["kind"] == "RUN" else ""
+        probes = ";".join(x for x in (probe_field(m["actions"]), "Binary") if x) if m["kind"] == "RUN" else ""
         impl_lines.append("C\t%s\t%s\t%s" % (";".join(vlib.hx(a) for a in cs["argv"]), files_field(sorted(set(names))), probes))
     res = {p: vlib.run_lines(capture_cmd(c.bins[p] + "/cli"), impl_lines) for p in c.bins}
     dist = {"rejected": 0, "help_version": 0, "asm_failed": 0, "ran": 0, "groups1": 0, "groups2": 0, "groups3": 0, "groups4": 0}
@@ -609,10 +689,10 @@ def stream_real(chk, c, cases, ms, need):
     quick = chk.tier == "quick"
     pick = [i for i, cs in enumerate(cases) if sane_for_disk(cs)]
     rng = chk.rng.fork("real")
-    limit = 700 if quick else 6000
+    limit = 1000 if quick else 6000
     if len(pick) > limit:
-        head = [i for i in pick if i < 400]
-        rest = rng.shuffle([i for i in pick if i >= 400])[:limit - len(head)]
+        head = [i for i in pick if i < 700]
+        rest = rng.shuffle([i for i in pick if i >= 700])[:limit - len(head)]
         pick = sorted(head + rest)
     binary = c.real["debug"]
 
@@ -659,6 +739,18 @@ def stream_real(chk, c, cases, ms, need):
             problems.append("%s created files %r" % (k.lower(), sorted(created)))
         if want_files is not None and sorted(created) != want_files:
             problems.append("files on disk %r, expected %r" % (sorted(created), want_files))
+        prog = INPUT_FILES.get(m["inputs"][0]) if k == "RUN" and len(m["inputs"]) == 1 else None
+        if k == "RUN" and rc == 0 and prog in DEFPROGS:
+            # the define's value is what the binary file holds where the constant is used
+            last = {os.path.normpath(x[1]): x for x in m["actions"] if x[0] == "W"}      # two groups may name the same file: last wins
+            for x in last.values():
+                data = created.get(os.path.normpath(x[1])) if x[2] == ("Binary", ()) else None
+                for idx, nm in enumerate(("X", "Y")):
+                    dv = first_define(m, nm)
+                    want = define_int(dv if dv is not None else need.get("declared", {}).get(prog, {}).get(nm))
+                    if data is not None and want is not None and len(data) > idx and data[idx] != want & 0xff:
+                        problems.append("byte %d of %s (constant %s) is 0x%02x, %s 0x%02x" % (
+                            idx, x[1], nm, data[idx], "the define says" if dv is not None else "its declared value is", want & 0xff))
         if k == "RUN" and rc == 0 and m["quiet"] and not any(x[0] == "P" for x in m["actions"]) and out:
             problems.append("quiet run printed %r" % out[:80])
         if k == "RUN" and rc == 0 and not m["quiet"] and b"assembling" not in out:
